@@ -274,7 +274,21 @@ func (ex *Exec) havocHeapKey(st *State, key string, sort string) {
 
 // havocAllHeap forgets everything about the heap (unknown call): a new epoch.
 func (ex *Exec) havocAllHeap(st *State, why string) {
-	st.heap = map[string]string{}
+	keep := map[string]string{}
+	if ex.keepGhosts {
+		// ghost effect logs survive calls into library code (which cannot call back
+		// into refinery's effectful functions)
+		for _, k := range ex.eng.heapKeys() {
+			if strings.HasPrefix(k, "G$") {
+				if v, ok := st.heap[k]; ok {
+					keep[k] = v
+				} else {
+					keep[k] = ex.eng.smt.named("H"+st.epoch+"_"+k, ex.eng.heapSortOf(k))
+				}
+			}
+		}
+	}
+	st.heap = keep
 	st.epoch = ex.eng.newEpoch()
 	for _, r := range ex.recs {
 		r.all = true
@@ -301,6 +315,16 @@ func (ex *Exec) readVar(st *State, obj types.Object) *Val {
 				ex.eng.smt.addAx(name, "(and (< 0 "+name+") (< "+name+" "+ex.eng.alloc0()+"))")
 			}
 			v := &Val{Sh: ex.eng.sh.shapeOf(obj.Type()), T: obj.Type(), S: name}
+			ex.init[obj] = v
+			return v
+		}
+		if cl, isLit := e.(*ast.CompositeLit); isLit {
+			ex.assumption("package variable " + obj.Pkg().Name() + "." + obj.Name() + " is treated as the constant it is initialised with (never assigned in non-test code)")
+			saved := ex.info
+			ex.info = ex.eng.constVarInfo[obj]
+			tmp := &State{vars: map[types.Object]*Val{}, heap: map[string]string{}, epoch: "0"}
+			v := ex.evalCompositeLit(tmp, cl, nil)
+			ex.info = saved
 			ex.init[obj] = v
 			return v
 		}
